@@ -743,6 +743,17 @@ pub fn cases(prop: &str, thorough: bool, seed: u64, c: &mut Cases) {
             }
         }
         "C02" | "C03" | "C09" => cases_sixseven(c, &mut rng, thorough),
+        "C17" => {
+            let sym = deck_blank();
+            for a in sym {
+                for b in sym {
+                    c.emit(if a == 0 || b == 0 { "chen/with-blank" } else if a == b { "chen/equal-cards" } else { "chen/distinct-cards" }, &format!("chen {a} {b}"));
+                }
+            }
+            for w in sym {
+                c.emit("acc/53-words (chen points)", &format!("acc {w}"));
+            }
+        }
         "C11" => {
             for h in c11_hands(&mut rng, thorough) {
                 c.emit(&format!("sort{}", h.len()), &format!("sort {}", join(&h)));
@@ -966,6 +977,7 @@ pub fn sweep(prop: &str, thorough: bool, seed: u64) -> Sweep {
         "C13" => sweep_c13(seed, thorough),
         "C05" => sweep_c05(seed, thorough),
         "C06" => sweep_c06(),
+        "C17" => sweep_c17(),
         "C11" => sweep_c11(seed, thorough),
         "C08" => sweep_c08(seed, thorough),
         "C04" => sweep_c04(seed, thorough),
@@ -2203,5 +2215,57 @@ fn sweep_c11(seed: u64, thorough: bool) -> Sweep {
     }
     s.rule = "all 52 x 52 card pairs for the numeric order; for sizes 2..7 all arrangements (n <= 4) or all multisets in canonical and a seeded arrangement over {3 cards, blank, a flagged card, 0xFFFFFFFF, 1} plus seeded arbitrary-word hands: output must be the same multiset, non-increasing, idempotent, copy and in-place forms equal; non-trivial = not all slots equal".into();
     s.sample(format!("Five[2C AS 0 KS 2C].sort() = {:?}", H::mk(&[layout_word(0, 0), layout_word(12, 3), 0, layout_word(11, 3), layout_word(0, 0)]).unwrap().sorted()));
+    s
+}
+
+/// C17: every ordered pair of distinct cards against Bill Chen's formula written out independently.
+fn sweep_c17() -> Sweep {
+    let mut s = Sweep { exhaustive: true, ..Default::default() };
+    let chen = |hi: u32, lo: u32, suited: bool| -> i32 {
+        // hi >= lo as pips 2..14; work in half-points
+        let base2: i32 = match hi { 14 => 20, 13 => 16, 12 => 14, 11 => 12, r => r as i32 };
+        let mut p2 = if hi == lo {
+            (2 * base2).max(10)
+        } else {
+            let gap = hi - lo - 1;
+            let pen2 = match gap { 0 => 0, 1 => 2, 2 => 4, 3 => 8, _ => 10 };
+            base2 - pen2 + if gap < 2 && hi < 12 { 2 } else { 0 }
+        };
+        if suited { p2 += 4; }
+        (p2 + 1).div_euclid(2)
+    };
+    for r1 in 0u32..13 { for s1 in 0u32..4 { for r2 in 0u32..13 { for s2 in 0u32..4 {
+        if (r1, s1) == (r2, s2) { continue; }
+        s.evaluations += 1;
+        s.nontrivial += 1;
+        let (a, b) = (layout_word(r1, s1), layout_word(r2, s2));
+        let t = Two::new(a, b);
+        let (hi, lo) = (r1.max(r2) + 2, r1.min(r2) + 2);
+        let gap = if hi == lo { 0 } else { hi - lo - 1 };
+        let want = (chen(hi, lo, s1 == s2) as i8, gap as u8, hi - lo <= 1, r1 == r2, s1 == s2, s1 == s2 && hi - lo <= 1, a.max(b));
+        let got = guarded(|| (t.chen_formula(), t.get_gap(), t.is_connector(), t.is_pocket_pair(), t.is_suited(), t.is_suited_connector(), t.high_card()));
+        if got != Some(want) {
+            s.fail("chen_formula / helpers differ from the Chen formula (score, gap, connector, pair, suited, suited connector, high card)", &format!("{a} {b}"), &format!("{want:?}"), &format!("{got:?}"));
+        }
+        let swapped = guarded(|| Two::new(b, a).chen_formula());
+        let shifted = guarded(|| t.shift_suit().chen_formula());
+        if swapped != Some(want.0) || shifted != Some(want.0) {
+            s.fail("score depends on slot order or suit shifting", &format!("{a} {b}"), &want.0.to_string(), &format!("swapped {swapped:?} shifted {shifted:?}"));
+        }
+    } } } }
+    for r in 0u32..13 {
+        for su in 0u32..4 {
+            s.evaluations += 1;
+            let want = match r + 2 { 14 => 10.0, 13 => 8.0, 12 => 7.0, 11 => 6.0, p => p as f32 / 2.0 };
+            let got = layout_word(r, su).get_chen_points();
+            if got != want {
+                s.fail("per-card Chen points", &layout_word(r, su).to_string(), &want.to_string(), &got.to_string());
+            }
+        }
+    }
+    s.rule = "all 52 x 51 ordered pairs of distinct cards: score and six helpers against the Chen formula written out independently in integer half-points, plus swap and shift invariance; all 52 cards for per-card points; every pair is non-trivial".into();
+    s.sample(format!("AKs = {}", Two::new(layout_word(12, 3), layout_word(11, 3)).chen_formula()));
+    s.sample(format!("72o = {}", Two::new(layout_word(5, 3), layout_word(0, 0)).chen_formula()));
+    s.sample(format!("22 = {}", Two::new(layout_word(0, 3), layout_word(0, 0)).chen_formula()));
     s
 }
